@@ -196,14 +196,16 @@ class BaseOverlay:
             # Overlays are not necessarily exited in the reverse order they
             # were entered (e.g. global probes), so we cannot restore the
             # collection that was current when we entered: remove exactly
-            # the pairs this overlay added from whatever is current now.
-            mine = self._entered.pop()
+            # the pairs this overlay added from whatever is current now,
+            # as well as the pairs derived from them for nested calls (the
+            # current collection may be that of a suspended generator).
+            mine = [acc for _, acc in self._entered.pop()]
             curr = HandlerCollection.current.get()
             remaining = [
-                pair
-                for pair in (curr.handler_pairs if curr else [])
+                (sel, acc)
+                for sel, acc in (curr.handler_pairs if curr else [])
                 if not any(
-                    pair[0] is sel and pair[1] is acc for sel, acc in mine
+                    acc is h or getattr(acc, "origin", None) is h for h in mine
                 )
             ]
             HandlerCollection.current.set(
